@@ -7,7 +7,7 @@
 
 use std::collections::HashSet;
 
-use mcx::{json, rayon::prelude::*, Args, Level, Report, Tier, Value};
+use mcx::{json, rayon::prelude::*, Args, Level, Report, Value};
 use rtlib::{
     dag::{basic_id, encode_payload, node_name, Cmd, MergeRank, Op},
     replica::addr,
